@@ -383,6 +383,54 @@ func init() {
 						c.Fail("copy|refusal|"+sig+"|from-modified", r.Name+": from was modified", map[string]any{"case": r.Name})
 					}
 				}},
+				{Name: "error-means-untouched", N: len(vmodel.Kinds) * len(vmodel.Kinds) * 4, Exhaustive: true, Run: func(c *Ctx, idx int) {
+					// every struct kind as to x every struct kind as from x {to typed like from, to untyped} x {type specific, generic},
+					// same id: whatever CopyItemProperties decides, an error means that to was not touched, and from never is
+					nk := len(vmodel.Kinds)
+					kt, kf := vmodel.Kinds[idx%nk], vmodel.Kinds[(idx/nk)%nk]
+					untypedTo := (idx/(nk*nk))%2 == 1
+					generic := idx/(nk*nk*2) == 1
+					if kt.Name == "Link" || kf.Name == "Link" {
+						return
+					}
+					ft := kf.SpecificType()
+					if generic {
+						ft = kf.Types[0]
+					}
+					mk := func(k vmodel.StructKind, typ string, seed int64) vocab.Item {
+						g := vmodel.NewGen(newRand(seed))
+						g.PSet = 0.3
+						p := g.Struct(k, 1, true)
+						v := reflect.ValueOf(p).Elem()
+						v.FieldByName("ID").Set(reflect.ValueOf(vocab.IRI("https://example.com/copy/any")))
+						v.FieldByName("Type").Set(reflect.ValueOf(vocab.ActivityVocabularyType(typ)))
+						return p.(vocab.Item)
+					}
+					tt := ft
+					if untypedTo {
+						tt = ""
+					}
+					to, from := mk(kt, tt, int64(idx)*2+1), mk(kf, ft, int64(idx)*2+2)
+					label := fmt.Sprintf("to=*%s[%s] from=*%s[%s]", kt.Name, tt, kf.Name, ft)
+					c.Distinct("any|"+label, true)
+					c.Count("any-outcome-cases", 1)
+					toBefore, fromBefore := vmodel.Canon(to, vmodel.Exact), vmodel.Canon(from, vmodel.Exact)
+					var err error
+					c.Pending("CopyItemProperties " + label)
+					if c.Guard("CopyItemProperties", func() { _, err = vocab.CopyItemProperties(to, from) }) {
+						return
+					}
+					c.Eval(1)
+					if err != nil {
+						c.Count("any-outcome-refused", 1)
+						if ds := vmodel.Diff(toBefore, vmodel.Canon(to, vmodel.Exact)); len(ds) > 0 {
+							c.Fail(fmt.Sprintf("copy|error-but-touched|%s|%s", kt.Fam, kf.Fam), fmt.Sprintf("%s: refused (%v) but to was modified: %s %s", label, err, ds[0].Path, ds[0].Kind), map[string]any{"case": label, "error": err.Error()})
+						}
+					}
+					if ds := vmodel.Diff(fromBefore, vmodel.Canon(from, vmodel.Exact)); len(ds) > 0 {
+						c.Fail(fmt.Sprintf("copy|from-modified|%s|%s", kt.Fam, kf.Fam), label+": from was modified", map[string]any{"case": label})
+					}
+				}},
 				{Name: "refusals-id-grid", N: 3000, Exhaustive: true, Run: func(c *Ctx, idx int) {
 					n := len(grid)
 					a := grid[(idx*131)%n]
